@@ -42,9 +42,24 @@ def jobs(tier, seed):
         out.append({"id": f"incbin/{rom}", "t": "incbin", "rom": rom})
         out.append({"id": f"incbin-scope/{rom}", "t": "incbin", "rom": rom, "scoped": True})
         out.append({"id": f"incbin-file-changed/{rom}", "t": "incbin", "rom": rom, "twice": True})
+    # entries naming a symbol that an outer scope binds while the program is expanded (`:=`, loop variable,
+    # macro parameter) and the directive's own scope defines by `=` / a label: the nearest definition is emitted
+    for k in SHADOW:
+        out.append({"id": f"shadowed/{k}", "t": "shadow", "k": k})
     if tier == "thorough":
         out.append({"id": "mixed/1", "t": "mixed"})
     return out
+
+
+# name -> (source, expected bytes as names / ints / ("lo"|"hi", int))
+SHADOW = {
+    "assign-then-eq": ("*=0x8000\nx := a\n{\nx = b\n.db x\n}\n.db x\n", ["b", "a"]),
+    "eq-later-in-scope": ("*=0x8000\nx := a\n{\n.db x\nx = b\n}\n.db x\n", ["b", "a"]),
+    "label-later-in-scope": ("*=0x8000\nx := a\n{\n.dw x\nx:\n}\n.db x\n", [0x02, 0x80, "a"]),
+    "loopvar-label": ("*=0x8000\n.for i := 0, 2 {\n{\ni:\n.dw i\n}\n.db i + a\n}\n", [0x00, 0x80, ("plus", 0), 0x03, 0x80, ("plus", 1)]),
+    "param-eq": ("*=0x8000\n.macro m(q) {\n{\nq = b\n.db q\n}\n.db q\n}\nm(a)\nm(b)\n", ["b", "a", "b", "b"]),
+    "param-label-in-dl": ("*=0x8000\n.macro m(q) {\n{\n.dl q\nq:\n}\n.db q\n}\nm(a)\n", [0x03, 0x80, 0x00, "a"]),
+}
 
 
 def _outcome(r):
@@ -64,6 +79,9 @@ def run(spec, cx):
         syms = {nm: cx.int(nm, -(1 << 31), (1 << 32) - 1) for nm in ("a", "b", "c", "d")}
         src = "*=0x8000\n.db a, b\n.dw c\n.dl d, a\n.pointer b\n.dw a+b, c-d\nend:\n.dl end\n"
         return _outcome(assemble(src, syms))
+    if t == "shadow":
+        syms = {"a": cx.int("a", 0, 0xFF), "b": cx.int("b", 0, 0xFF)}
+        return _outcome(assemble(SHADOW[spec["k"]][0], syms))
     if t == "refs":
         p = cx.int("p", 0, 0xFFFFFF)
         pt = cx.t("p")
@@ -120,6 +138,13 @@ def check(spec, cx, out):
             exp = le_bytes(a, 1) + le_bytes(b, 1) + le_bytes(c, 2) + le_bytes(d, 3) + le_bytes(a, 3) + le_bytes(b, 3) + le_bytes(a + b, 2) + le_bytes(c - d, 2)
         end = 0x8000 + len(exp)
         res.append(("bytes-little-endian-truncated", eq_bytes(data, exp + le_bytes(B(end), 3))))
+        res.append(("offset", bv(addr) == 0))
+        return res
+    if t == "shadow":
+        exp = []
+        for e in SHADOW[spec["k"]][1]:
+            exp.append(cx.t(e) if isinstance(e, str) else (cx.t("a") + e[1]) & 0xFF if isinstance(e, tuple) else B(e))
+        res.append(("nearest-definition-emitted", eq_bytes(data, exp)))
         res.append(("offset", bv(addr) == 0))
         return res
     if t == "refs":
